@@ -192,8 +192,6 @@ def doc_text(start):
     recs = _shuffled(recs, start["perm"])
     import random
     r = random.Random(start["perm"] * 7 + 1)
-    for s in reversed(sofas):  # insert keeping the relative order of sofas
-        pass
     pos = sorted(r.randint(0, len(recs)) for _ in sofas)
     out, j = [], 0
     for i in range(len(recs) + 1):
@@ -748,6 +746,23 @@ def _directed():
             one = {"kind": "doc", "fmt": fmt, "form": form, "perm": 1, "sofas": [{"id": 1, "num": 1, "name": INIT}], "fs": []}
             out.append({"start": one, "ops": [{"op": "view", "name": "v1"}, {"op": "new", "l": 11},
                                               {"op": "add", "l": 11, "keep": None, "view": "v1"}, {"op": "save", "fmt": fmt}]})
+    # repaired: a preset id above the generator kept by add was handed out again (ba2e314)
+    out.append({"start": {"kind": "empty"},
+                "ops": [{"op": "new", "l": 10, "preset": {"mode": "above", "arg": 1}}, {"op": "add", "l": 10, "keep": True, "view": INIT},
+                        {"op": "view", "name": "v1"}, {"op": "view", "name": "v2"}, {"op": "new", "l": 11},
+                        {"op": "add", "l": 11, "keep": None, "view": "v2"}, {"op": "save", "fmt": "xmi"}, {"op": "reload", "fmt": "json"}]})
+    # repaired: documents without an _InitialView sofa, FS id 1 / sofaNum 1 in the document (941f890)
+    for fmt in ("xmi", "json"):
+        out.append({"start": {"kind": "doc", "fmt": fmt, "form": "list", "perm": 2, "sofas": [{"id": 5, "num": 1, "name": "v1"}],
+                              "fs": [{"l": 1, "id": 1, "member": "v1", "ref": None}]},
+                    "ops": [{"op": "save", "fmt": fmt}, {"op": "view", "name": "v2"}, {"op": "new", "l": 11},
+                            {"op": "add", "l": 11, "keep": None, "view": INIT}, {"op": "reload", "fmt": fmt}]})
+    # repaired: forced duplicate on a reference cycle (5d97967)
+    out.append({"start": {"kind": "empty"},
+                "ops": [{"op": "new", "l": 10}, {"op": "new", "l": 11}, {"op": "link", "p": 10, "c": 11}, {"op": "link", "p": 11, "c": 10},
+                        {"op": "add_all", "ls": [10, 11], "view": INIT}, {"op": "new", "l": 12},
+                        {"op": "add", "l": 12, "keep": None, "view": INIT}, {"op": "force", "l": 12, "mode": "as", "arg": 10},
+                        {"op": "save", "fmt": "xmi"}, {"op": "save", "fmt": "json"}]})
     out.append({"start": {"kind": "empty"},
                 "ops": [{"op": "new", "l": 11}, {"op": "new", "l": 12}, {"op": "add_all", "ls": [11, 12], "view": INIT},
                         {"op": "force", "l": 12, "mode": "as", "arg": 11}, {"op": "save", "fmt": "xmi"}, {"op": "save", "fmt": "json"}]})
@@ -810,7 +825,9 @@ def signature(sc, msg):
     msg = msg or ""
     if KNOWN in msg:
         return {"what": "fs_id_equals_sofa_id"}
-    return {"what": "other", "head": msg.split(":", 1)[-1].strip()[:40]}
+    import re
+    head = re.sub(r"\[.*?\]|\(.*?\)|\d+|sofa \w+|_InitialView", "", msg.split(":", 1)[-1])
+    return {"what": "other", "head": " ".join(head.split())[:60]}
 
 
 def distribution(scenarios, observations):
